@@ -125,6 +125,12 @@ pub fn umul(a: u64, b: u64) -> u128 {
     } else {
         kani::assume(p >= a as u128 && p >= b as u128);
     }
+    if a == 1 {
+        kani::assume(p == b as u128);
+    }
+    if b == 1 {
+        kani::assume(p == a as u128);
+    }
     p
 }
 
